@@ -183,11 +183,11 @@ VARIANTS += [
     ("C09-clean", "C09", None, "", "", None),
     ("C09-year-366", "C09", DUR, "            days + years * 365 + months * 30,", "            days + years * 366 + months * 30,", "UNITS.new"),
     ("C09-slot-swap", "C09", DUR, "            milliseconds,\n            minutes,\n            hours,\n            weeks,\n        )\n\n        # Intuitive", "            milliseconds,\n            hours,\n            minutes,\n            weeks,\n        )\n\n        # Intuitive", "UNITS.new"),
-    ("C09-total-month", "C09", DUR, "total = self.total_seconds() - (years * 365 + months * 30) * SECONDS_PER_DAY", "total = self.total_seconds() - (years * 365 + months * 31) * SECONDS_PER_DAY", "UNITS.new"),
+    ("C09-total-month", "C09", DUR, "            (timedelta.days.__get__(self) - (years * 365 + months * 30))", "            (timedelta.days.__get__(self) - (years * 365 + months * 31))", "UNITS.new"),
     ("C09-sign-le-benign", "C09", DUR, "        if total < 0:\n            m = -1", "        if total <= 0:\n            m = -1", None),   # at total == 0 every component is 0 whatever the sign: behaviour-preserving (found by the tabulated rule)
     ("C09-sign-gt", "C09", DUR, "        if total < 0:\n            m = -1", "        if total > 0:\n            m = -1", "DIVMOD"),
-    ("C09-seconds-nosign", "C09", DUR, "self._seconds = abs(int(total)) % SECONDS_PER_DAY * m", "self._seconds = abs(int(total)) % SECONDS_PER_DAY", "DIVMOD.pair"),
-    ("C09-days-hour", "C09", DUR, "_days = abs(int(total)) // SECONDS_PER_DAY * m", "_days = abs(int(total)) // SECONDS_PER_HOUR * m", "DIVMOD.pair"),
+    ("C09-seconds-nosign", "C09", DUR, "self._seconds = abs(total) // US_PER_SECOND % SECONDS_PER_DAY * m", "self._seconds = abs(total) // US_PER_SECOND % SECONDS_PER_DAY", "DIVMOD"),
+    ("C09-days-hour", "C09", DUR, "_days = abs(total) // US_PER_SECOND // SECONDS_PER_DAY * m", "_days = abs(total) // US_PER_SECOND // SECONDS_PER_HOUR * m", "DIVMOD"),
     ("C09-weeks-mod", "C09", DUR, "self._weeks = abs(_days) // 7 * m", "self._weeks = abs(_days) // 7", "DIVMOD.pair"),
     ("C09-hours-radix", "C09", DUR, "self._h = (abs(seconds) // 3600 % 24) * self._sign(seconds)", "self._h = (abs(seconds) // 3600 % 12) * self._sign(seconds)", "RADIX.digit"),
     ("C09-minutes-nosign", "C09", DUR, "self._i = (abs(seconds) // 60 % 60) * self._sign(seconds)", "self._i = (abs(seconds) // 60 % 60)", "RADIX.digit"),
@@ -206,12 +206,14 @@ VARIANTS += [
     ("C10-mul-ratio", "C10", DUR, "return self.__class__(0, 0, _divide_and_round(usec * a, b))", "return self.__class__(0, 0, _divide_and_round(usec * b, a))", "RATIO"),
     ("C10-truediv-ratio", "C10", DUR, "                _divide_and_round(b * usec, a),", "                _divide_and_round(a * usec, b),", "RATIO"),
     ("C10-round-half", "C10", DUR, "    if greater_than_half or r == b and q % 2 == 1:", "    if greater_than_half or r == b:", "REFERENCE.divide_and_round"),
-    ("C10-mul-native-result", "C10", DUR, "            return self.__class__(\n                years=self._years * other,\n                months=self._months * other,\n                seconds=self._total * other,\n            )", "            return timedelta(seconds=self._total * other)", "DUNDER.result"),
+    ("C10-mul-native-result", "C10", DUR, "            return self.__class__(\n                years=self._years * other,\n                months=self._months * other,\n                microseconds=self._to_microseconds() * other,\n            )", "            return timedelta(microseconds=self._to_microseconds() * other)", "DUNDER.result"),
     ("C10-mul-drop-months", "C10", DUR, "                years=self._years * other,\n                months=self._months * other,\n", "                years=self._years * other,\n", "SCALE.int"),
     ("C10-no-guard", "C10", DUR, "    def __mod__(self, other: timedelta) -> Self:\n        if isinstance(other, timedelta):\n", "    def __mod__(self, other: timedelta) -> Self:\n        if True:\n", "DUNDER"),
     ("C10-fall-off", "C10", DUR, "        if not isinstance(other, (int, timedelta)):\n            return NotImplemented\n", "        if not isinstance(other, (int, float, timedelta)):\n            return NotImplemented\n", "DUNDER.returns"),
     ("C10-radd-removed", "C10", DUR, "    __radd__ = __add__\n\n    def __sub__", "    def __sub__", "DUNDER.reflected"),
-    ("C10-add-minus", "C10", DUR, "return self.__class__(seconds=self.total_seconds() + other.total_seconds())", "return self.__class__(seconds=self.total_seconds() - other.total_seconds())", "ADDSUB"),
+    ("C10-add-minus", "C10", DUR, "                microseconds=_native_microseconds(self) + _native_microseconds(other)", "                microseconds=_native_microseconds(self) - _native_microseconds(other)", "ADDSUB"),
+    ("C10-add-float-again", "C10", DUR, "            return self.__class__(\n                microseconds=_native_microseconds(self) + _native_microseconds(other)\n            )", "            return self.__class__(seconds=self.total_seconds() + other.total_seconds())", "ADDSUB"),
+    ("C10-native-helper-weight", "C10", DUR, "        timedelta.days.__get__(delta) * SECONDS_PER_DAY\n        + timedelta.seconds.__get__(delta)\n    ) * US_PER_SECOND + timedelta.microseconds.__get__(delta)", "        timedelta.days.__get__(delta) * SECONDS_PER_DAY\n        + timedelta.seconds.__get__(delta)\n    ) * US_PER_SECOND", "UNITS.native"),
     ("C10-interval-no-delegate", "C10", IV, "    def __mod__(self, other: timedelta) -> Duration:  # type: ignore[override]\n        return self.as_duration().__mod__(other)\n", "", "CTOR-LSP"),
     ("C10-as-duration", "C10", IV, "        return Duration(seconds=self.total_seconds())", "        return Duration(seconds=self.in_seconds())", "INTERVAL.delegate"),
 ]
@@ -418,7 +420,7 @@ VARIANTS += [
 BENIGN = [
     ("rename-add-local", DT, "        units_of_variable_length = any([years, months, weeks, days])", "        calendar_units = any([years, months, weeks, days])", ["C01", "C03", "C04"], [("units_of_variable_length", "calendar_units")]),
     ("convert-rename-locals", TZ, None, None, ["C01", "C02"], [("offset_before", "off0"), ("offset_after", "off1")]),
-    ("duration-new-rename-m", DUR, None, None, ["C09", "C10", "C04"], [("        m = 1\n        if total < 0:\n            m = -1", "        sgn = 1\n        if total < 0:\n            sgn = -1"), ("total % m * 1e6", "total % sgn * 1e6"), ("% SECONDS_PER_DAY * m", "% SECONDS_PER_DAY * sgn"), ("// SECONDS_PER_DAY * m", "// SECONDS_PER_DAY * sgn"), ("% 7 * m", "% 7 * sgn"), ("// 7 * m", "// 7 * sgn")]),
+    ("duration-new-rename-m", DUR, None, None, ["C09", "C10", "C04"], [("        m = 1\n        if total < 0:\n            m = -1", "        sgn = 1\n        if total < 0:\n            sgn = -1"), ("% US_PER_SECOND * m", "% US_PER_SECOND * sgn"), ("% SECONDS_PER_DAY * m", "% SECONDS_PER_DAY * sgn"), ("// SECONDS_PER_DAY * m", "// SECONDS_PER_DAY * sgn"), ("% 7 * m", "% 7 * sgn"), ("// 7 * m", "// 7 * sgn")]),
     ("error-message-change", "src/pendulum/tz/exceptions.py", None, None, ["C01", "C02"], [('message = "The datetime {} does not exist."', 'message = "The datetime {} is not a valid local time."')]),
     ("add-unrelated-method", DT, None, None, ["C01", "C02", "C03", "C04", "C05", "C11", "C12", "C14", "C16"], [("    def is_utc(self) -> bool:", "    def is_epoch(self) -> bool:\n        return self.int_timestamp == 0\n\n    def is_utc(self) -> bool:")]),
     ("docstring-change", HELP, None, None, ["C03", "C04"], [('    Adds a duration to a date/datetime instance.', '    Adds a duration to a date or datetime instance (calendar aware).')]),
@@ -434,7 +436,7 @@ BENIGN = [
 ]
 BENIGN += [
     ("type-self", DATE, None, None, ["C04", "C05", "C11", "C14"], [("        return self.__class__(dt.year, dt.month, dt.day)\n\n    def subtract", "        return type(self)(dt.year, dt.month, dt.day)\n\n    def subtract")]),
-    ("annotated-assign", DUR, None, None, ["C09", "C10"], [("        self._total = total\n", "        self._total: float = total\n")]),
+    ("annotated-assign", DUR, None, None, ["C09", "C10"], [("        self._total = total / US_PER_SECOND\n", "        self._total: float = total / US_PER_SECOND\n")]),
     ("astimezone-kwargs-order", DT, None, None, ["C01", "C11"], [("            dt.microsecond,\n            fold=dt.fold,\n            tzinfo=dt.tzinfo,\n        )", "            dt.microsecond,\n            tzinfo=dt.tzinfo,\n            fold=dt.fold,\n        )")]),
     ("convert-elif-to-if", TZ, None, None, ["C01", "C02"], [("            elif offset_before > offset_after and raise_on_unknown_times:\n                # Repeated time\n                raise AmbiguousTime(dt)", "            if offset_before > offset_after and raise_on_unknown_times:\n                # Repeated time\n                raise AmbiguousTime(dt)")]),
     ("time-diff-parenthesise", TIME, None, None, ["C20"], [("        return klass(microseconds=us2 - us1)", "        delta_us = us2 - us1\n\n        return klass(microseconds=delta_us)")]),
@@ -504,6 +506,13 @@ VARIANTS += [
 VARIANTS += [
     ("C08-iso8601-z-any-zone", "C08", DT, '        if self.tz and self.tz.name == "UTC":\n            string = string.replace("+00:00", "Z")', '        if self.tz:\n            string = string.replace("+00:00", "Z")', "NAMED.iso8601"),
     ("C08-to-string-callable-inverted", "C08", DT, "        if callable(fmt_value):\n            return fmt_value(self)", "        if not callable(fmt_value):\n            return fmt_value(self)", "NAMED.dispatch"),
+]
+VARIANTS += [
+    ("C09-us-scale-wrong", "C09", DUR, "        self._microseconds = abs(total) % US_PER_SECOND * m", "        self._microseconds = abs(total) % SECONDS_PER_DAY * m", "DIVMOD"),
+    ("C09-native-seconds-dropped", "C09", DUR, "            * SECONDS_PER_DAY\n            + timedelta.seconds.__get__(self)\n        ) * US_PER_SECOND", "            * SECONDS_PER_DAY\n        ) * US_PER_SECOND", "UNITS.new"),
+]
+VARIANTS += [
+    ("C13-duration-float-total", "C13", DUR, "        self._microseconds = abs(total) % US_PER_SECOND * m", "        self._microseconds = round(self.total_seconds() % 1 * 1e6) * m", "EXACT.breakdown"),
 ]
 BENIGN2 = [
     ("day-helper-inline", DT, ["C16"], [("            getattr(self._day(), f\"_first_of_{unit}\")(day_of_week).start_of(\"day\"),", "            getattr(self.start_of(\"day\").replace(fold=1), f\"_first_of_{unit}\")(day_of_week).start_of(\"day\"),")]),
